@@ -623,6 +623,27 @@ func c03Missing(c *Ctx, idx int, r *Rng) {
 		b, ok := srv.objs[oid]
 		return b, ok
 	}
+	// how the hook ends, against the decision model PushReport.ok: what the scenario planted decides
+	{
+		mc := damage != "bitflip"             // absent, or a file of the wrong size: not uploadable, and not on the server
+		other := damage == "bitflip" || refused != "" // content under the wrong id is refused by server / agent; a refused or lost PUT
+		b01 := func(b bool) string {
+			if b {
+				return "1"
+			}
+			return "0"
+		}
+		if ans, err := c.Or.Ask([]string{fmt.Sprintf("C03 report %s %s %s 0 0", b01(mc), b01(allow), b01(other))}); err == nil {
+			got := "ok"
+			if code != 0 {
+				got = "fail"
+			}
+			if ans[0] != got {
+				c.R.Add(Finding{Kind: "diff", What: "how a push with faults ends: model and implementation disagree", Case: enc, Impl: got + " | " + clip(out, 300), Model: ans[0], Broken: "corr.C03.report"})
+			}
+			c.R.Count("damaged-object-push.report-compared")
+		}
+	}
 	if code == 0 || before != after {
 		// the refs moved: every referenced object must be on the remote with the right content
 		for _, o := range oids {
